@@ -536,9 +536,9 @@ func c16fields(p *Prog, r *Report) {
 			if !hidden {
 				continue
 			}
-			why, ok := derived[t[1]][f.Name()]
-			r.Check(ok, rule, t[1]+"."+f.Name()+":serialised-or-derived", p.pos(f.Pos()), "", "not serialised, recomputed: "+why,
-				"field "+t[1]+"."+f.Name()+" is part of a persisted value but is dropped by the codec (unexported / hidden) and is not a recomputed cache: a "+t[1]+" read back from the database differs from the one written")
+			why, ok := derived[t[1]][refName(f)]
+			r.Check(ok, rule, t[1]+"."+refName(f)+":serialised-or-derived", p.pos(f.Pos()), "", "not serialised, recomputed: "+why,
+				"field "+t[1]+"."+refName(f)+" is part of a persisted value but is dropped by the codec (unexported / hidden) and is not a recomputed cache: a "+t[1]+" read back from the database differs from the one written")
 		}
 	}
 }
